@@ -80,6 +80,7 @@ const (
 	didJp  = "did:web:example.com:iam:issuer"
 	didJx  = "did:web:example.com:iam:issuer20"
 	didRt  = "did:web:example.com"
+	didB   = "did:web:based.example.com" // its document uses @base + relative key ids
 	ctxVC  = "https://www.w3.org/2018/credentials/v1"
 	ctxNut = "https://nuts.nl/credentials/v1"
 	ctxEx  = "http://example.org/credentials/V1"
@@ -92,6 +93,7 @@ type c01Version struct {
 	Deact  bool        `json:"deact"`
 	Assert [][2]string `json:"assertion"` // (verification method id, key name)
 	Auth   [][2]string `json:"-"`
+	Base   string      `json:"base"` // non-empty: the document declares this "@base" and writes its verification method ids relative ("#k")
 }
 
 type c01World struct {
@@ -159,6 +161,39 @@ func (w *c01World) Resolve(id did.DID, md *resolver.ResolveMetadata) (*did.Docum
 	ck := id.String() + "/" + strconv.Itoa(idx)
 	if d, ok := w.docs[ck]; ok {
 		return d, &resolver.DocumentMetadata{}, nil
+	}
+	if v.Base != "" {
+		// a document as some did:web vendors publish it: "@base" in the @context, relative verification method ids,
+		// every key in verificationMethod, the relationships refer to them
+		asJWK := func(name string) map[string]any {
+			k, _ := jwk.FromRaw(w.keys[name])
+			data, _ := json.Marshal(k)
+			var r map[string]any
+			_ = json.Unmarshal(data, &r)
+			return r
+		}
+		var vms, ass, auth []any
+		seen := map[string]bool{}
+		for _, p := range append(append([][2]string{}, v.Assert...), v.Auth...) {
+			if !seen[p[0]] {
+				seen[p[0]] = true
+				vms = append(vms, map[string]any{"id": p[0], "type": "JsonWebKey2020", "controller": id.String(), "publicKeyJwk": asJWK(p[1])})
+			}
+		}
+		for _, p := range v.Assert {
+			ass = append(ass, p[0])
+		}
+		for _, p := range v.Auth {
+			auth = append(auth, p[0])
+		}
+		js, _ := json.Marshal(map[string]any{"@context": []any{"https://www.w3.org/ns/did/v1", map[string]any{"@base": v.Base}},
+			"id": id.String(), "verificationMethod": vms, "assertionMethod": ass, "authentication": auth})
+		doc, err := did.ParseDocument(string(js))
+		if err != nil {
+			w.t.Fatal(err)
+		}
+		w.docs[ck] = doc
+		return doc, &resolver.DocumentMetadata{}, nil
 	}
 	doc := &did.Document{ID: id}
 	mk := func(p [2]string) *did.VerificationMethod {
@@ -272,6 +307,7 @@ type c01Nodes struct {
 	kr         resolver.KeyResolver
 	vTrustFile string
 	vdb        *gorm.DB
+	idb        *gorm.DB // the issuer node's SQL database (managed status lists)
 	http       *c01HTTP
 	w          *c01World
 	ver        verifier.Verifier
@@ -1328,6 +1364,13 @@ func newC01Nodes(t *testing.T) *c01Nodes {
 	for _, la := range []string{didIp, didIx, didJp, didJx, didRt} {
 		w.hist[la] = []c01Version{{From: T(-1000), Assert: [][2]string{{la + "#k1", w.newKey(la + "#k1")}}}}
 	}
+	// issuer B: @base document; #k1 assertion; #k2 authentication ONLY; #k3 assertion at first, demoted to authentication at +1500
+	// (it stays in verificationMethod)
+	b1, b2, b3 := w.newKey(didB+"#k1"), w.newKey(didB+"#k2"), w.newKey(didB+"#k3")
+	w.hist[didB] = []c01Version{
+		{From: T(-1000), Base: didB, Assert: [][2]string{{"#k1", b1}, {"#k3", b3}}, Auth: [][2]string{{"#k2", b2}}},
+		{From: T(1500), Base: didB, Assert: [][2]string{{"#k1", b1}}, Auth: [][2]string{{"#k2", b2}, {"#k3", b3}}},
+	}
 	h1 := w.newKey(didH + "#k1")
 	w.hist[didH] = []c01Version{{From: T(-1000), Assert: [][2]string{{didH + "#k1", h1}}}}
 	o1 := w.newKey(didO + "#k1")
@@ -1364,7 +1407,7 @@ func newC01Nodes(t *testing.T) *c01Nodes {
 	}
 	iver := verifier.NewVerifier(ivstore, w, kr, w.ldm, iTrust, revocation.NewStatusList2021(idb, nil, ""))
 	wallet := holder.NewSQLWallet(kr, w.ks, iver, w.ldm, iEng)
-	n := &c01Nodes{w: w, ver: ver, vTrust: vTrust, iss: iss, pub: pub, wallet: wallet, http: httpStub, vdb: vEng.GetSQLDatabase(),
+	n := &c01Nodes{w: w, ver: ver, vTrust: vTrust, iss: iss, pub: pub, wallet: wallet, http: httpStub, vdb: vEng.GetSQLDatabase(), idb: idb,
 		vstore: fstore, fstore: fstore, iver: iver, kr: kr, vTrustFile: path.Join(dir, "vtrust.yaml")}
 	httpStub.n = n
 	return n
@@ -1591,6 +1634,13 @@ func (n *c01Nodes) generate(o *c01Out, rnd *rand.Rand, thorough bool) {
 			bases = append(bases, b)
 		}
 	}
+	// credentials of issuer B (its document has @base + relative key ids; the node's own issuer cannot use such a document, so these
+	// are signed with the proof builder / SignJWT directly, with the ABSOLUTE key id the verifier has to match against "#k1")
+	for _, f := range []string{vc.JSONLDCredentialProofFormat, vc.JWTCredentialProofFormat} {
+		text := n.handIssue(didB, didB+"#k1", f, issuedAt)
+		creds["based:"+f] = text
+		bases = append(bases, c01Base{label: "based:" + f, kind: "vc", text: text, issued: issuedAt})
+	}
 	// trust on the verifier node (the issuer's own trust file is a different node's)
 	for _, tr := range [][2]string{{"NutsOrganizationCredential", didI}, {"HumanCredential", didI}, {"NutsAuthorizationCredential", didI}} {
 		n.setTrust(o, tr[0], tr[1], true)
@@ -1657,6 +1707,12 @@ func (n *c01Nodes) generate(o *c01Out, rnd *rand.Rand, thorough bool) {
 	n.trustScenario(o, rnd, bases, thorough)
 	// 2d. Issue on accepted and refused templates
 	n.issueScenario(o, rnd)
+	// credentials signed by B's key #k3, an assertion key until +1500 and an authentication-only key afterwards (scanned over time only)
+	for _, f := range []string{vc.JSONLDCredentialProofFormat, vc.JWTCredentialProofFormat} {
+		b := c01Base{label: "based-k3:" + f, kind: "vc", text: n.handIssue(didB, didB+"#k3", f, issuedAt), issued: issuedAt}
+		n.run(o, c01Call{kind: b.kind, text: b.text, at: &okAt, allowUntrusted: false, checkSig: true, label: b.label, base: b.label})
+		bases = append(bases, b)
+	}
 	// 3. time / key-history / trust / revocation scan on the unmodified documents
 	n.scan(o, rnd, bases, thorough)
 }
@@ -2036,6 +2092,7 @@ func statusScenario(t *testing.T, o *c01Out, rnd *rand.Rand, mode string, mutate
 		CredentialSubject: []any{map[string]any{"id": didH, "human": map[string]any{"eyeColour": "green", "hairColour": "dark"}}}}
 	issuedAt := c01T0 + 100
 	okAt := issuedAt + 30
+	okT := time.Unix(okAt, 0)
 	n.setTrust(o, "HumanCredential", didJ, true)
 	type sc struct {
 		label, text string
@@ -2176,6 +2233,35 @@ func statusScenario(t *testing.T, o *c01Out, rnd *rand.Rand, mode string, mutate
 		age()
 		verifyAll("@aged-again")
 		verifyAll("@aged-again2")
+		// 18 hours pass without another revocation: the issuer's stored list is about to expire, so the next GET makes the issuer
+		// node RENEW (rebuild + re-sign) it.  The renewed list still carries every revocation: on the second node (which downloads
+		// it) and on the issuing node itself (which reads the rewritten record).
+		issuerNode := func(tag string) {
+			for _, c := range list {
+				cred, _ := vc.ParseVerifiableCredential(c.text)
+				want := "ok"
+				if c.revoke {
+					want = "err:revoked"
+				}
+				o.emit(map[string]any{"op": "expect", "label": "issuer-node:" + c.label + tag, "expect": want, "kind": "issuer-node-status"},
+					c01Class(n.iver.Verify(*cred, true, true, &okT)))
+			}
+		}
+		issuerNode("@before-renewal")
+		rawBefore := ""
+		_ = n.idb.Raw("SELECT raw FROM status_list_credential LIMIT 1").Scan(&rawBefore).Error
+		if err := n.idb.Exec("UPDATE status_list_credential SET expires = ?", time.Now().Add(5*time.Hour).Unix()).Error; err != nil {
+			t.Fatal(err)
+		}
+		age()
+		verifyAll("@renewed")
+		verifyAll("@renewed2")
+		rawAfter := ""
+		_ = n.idb.Raw("SELECT raw FROM status_list_credential LIMIT 1").Scan(&rawAfter).Error
+		if rawBefore == "" || rawBefore == rawAfter {
+			t.Fatal("status scenario: the issuer node did not renew the almost expired status list")
+		}
+		issuerNode("@after-renewal")
 	}
 	if strings.HasSuffix(mode, "-after-cache") {
 		// an hour passes (the verifier refreshes status lists older than 15 minutes), then only a tampered list / nothing is served:
@@ -2401,9 +2487,34 @@ func (n *c01Nodes) multiMutate(o *c01Out, rnd *rand.Rand, b c01Base, at int64, i
 		label: b.label + "~multi" + strconv.Itoa(i) + ":" + strings.Join(kinds, "+"), base: b.label, mut: "multi:" + strings.Join(kinds, "+"), path: strings.Join(paths, "+")})
 }
 
+// handIssue: a plain credential of `issuerDID` for the holder, signed with key `kid` through the real proof builder / JWT signer
+func (n *c01Nodes) handIssue(issuerDID, kid, format string, at int64) string {
+	u := ssi.MustParseURI
+	id := u(issuerDID + "#" + strings.ReplaceAll(kid[strings.Index(kid, "#")+1:], "#", "") + "-" + format)
+	un := vc.VerifiableCredential{Context: []ssi.URI{u(ctxVC)}, ID: &id, Type: []ssi.URI{u("VerifiableCredential")}, Issuer: u(issuerDID),
+		IssuanceDate: time.Unix(at, 0).UTC(), CredentialSubject: []any{map[string]any{"id": didH}}}
+	if format == vc.JWTCredentialProofFormat {
+		c, err := vc.CreateJWTVerifiableCredential(n.w.ctx, un, func(ctx context.Context, claims map[string]interface{}, headers map[string]interface{}) (string, error) {
+			return n.w.ks.SignJWT(ctx, claims, headers, kid)
+		})
+		if err != nil {
+			n.w.t.Fatal(err)
+		}
+		return c.Raw()
+	}
+	b, _ := json.Marshal(un)
+	var m map[string]any
+	_ = json.Unmarshal(b, &m)
+	signed, err := proof.NewLDProof(proof.ProofOptions{Created: un.IssuanceDate}).Sign(n.w.ctx, m, signature.JSONWebSignature2020{ContextLoader: n.w.loader, Signer: n.w.ks}, kid)
+	if err != nil {
+		n.w.t.Fatal(err)
+	}
+	return mustJSON(signed)
+}
+
 // resignJWT: the same claims signed again by other keys (the attacker's, the issuer's authentication-only key, a key of another version)
 func (n *c01Nodes) resignJWT(o *c01Out, b c01Base, hdr, pl map[string]any, at int64) {
-	for _, kid := range []string{didO + "#k1", didI + "#k3", didI + "#k2", didI + "#k1b", didIp + "#k1", didIx + "#k1", didJp + "#k1", didJx + "#k1", didRt + "#k1"} {
+	for _, kid := range []string{didO + "#k1", didI + "#k3", didI + "#k2", didI + "#k1b", didIp + "#k1", didIx + "#k1", didJp + "#k1", didJx + "#k1", didRt + "#k1", didB + "#k2", didB + "#k3"} {
 		h := map[string]any{}
 		for k, v := range hdr {
 			if k != "kid" && k != "alg" {
@@ -2434,7 +2545,7 @@ func (n *c01Nodes) resignLD(o *c01Out, b c01Base, root map[string]any, at int64)
 			doc[k] = deepCopy(v)
 		}
 	}
-	for _, kid := range []string{didO + "#k1", didI + "#k3", didI + "#k2", didI + "#k1b", didH + "#k1", didIp + "#k1", didIx + "#k1", didJp + "#k1", didJx + "#k1", didRt + "#k1"} {
+	for _, kid := range []string{didO + "#k1", didI + "#k3", didI + "#k2", didI + "#k1b", didH + "#k1", didIp + "#k1", didIx + "#k1", didJp + "#k1", didJx + "#k1", didRt + "#k1", didB + "#k2", didB + "#k3"} {
 		opts := proof.ProofOptions{Created: time.Unix(b.issued, 0).UTC()}
 		signed, err := proof.NewLDProof(opts).Sign(n.w.ctx, deepCopy(doc).(map[string]any), signature.JSONWebSignature2020{ContextLoader: n.w.loader, Signer: n.w.ks}, kid)
 		if err != nil {
@@ -2505,7 +2616,7 @@ func (n *c01Nodes) scan(o *c01Out, rnd *rand.Rand, bases []c01Base, thorough boo
 	skew := int64(5)
 	for _, b := range bases {
 		times := []int64{b.issued - skew - 1, b.issued - skew, b.issued - 1, b.issued, b.issued + 1,
-			c01T0 + 999, c01T0 + 1000, c01T0 + 1999, c01T0 + 2000, c01T0 + 2001, c01T0 + 2999, c01T0 + 3000, c01T0 - 1000, c01T0 - 1001}
+			c01T0 + 999, c01T0 + 1000, c01T0 + 1499, c01T0 + 1500, c01T0 + 1501, c01T0 + 1999, c01T0 + 2000, c01T0 + 2001, c01T0 + 2999, c01T0 + 3000, c01T0 - 1000, c01T0 - 1001}
 		if b.expires != nil {
 			e := *b.expires
 			times = append(times, e-1, e, e+1, e+skew, e+skew+1)
